@@ -115,7 +115,14 @@ def _flag_reshape():
     body = astlib.body_no_doc(fn)
     for st in body:
         if isinstance(st, ast.Assign) and ast.unparse(st.targets[0]) == "j":
-            return ast.unparse(st.value).replace(" ", "") == "isinstance(b,str)andnotisinstance(b,(KGSym,KGChar))"
+            v = st.value
+            guarded = (isinstance(v, ast.BoolOp) and isinstance(v.op, ast.And) and len(v.values) == 2
+                       and ast.unparse(v.values[0]).replace(" ", "") == "isinstance(b,str)"
+                       and isinstance(v.values[1], ast.UnaryOp) and isinstance(v.values[1].op, ast.Not)
+                       and ast.unparse(v.values[1].operand).replace(" ", "") == "isinstance(b,KGSym)")
+            # both np.full branches must re-fill the object array with the symbol itself
+            fills = [c for c in astlib.calls_in(fn, "fill") if len(c.args) == 1 and getattr(c.args[0], "id", None) == "b"]
+            return guarded and len(fills) == 2
     raise ShapeError("eval_dyad_reshape: assignment to j not found")
 
 
@@ -283,6 +290,19 @@ from klongpy import KlongInterpreter
 from harness.canon import canon
 from harness.common import sx
 NAN = 0x7ff8000000000000
+import harness.canon as _hc
+_canon0 = _hc.canon
+def canon(v):
+    # the NumPy backend has its own KGChar class (klongpy.backends.numpy_backend.KGChar), which canon.py does not know
+    if type(v).__name__ == "KGChar" and isinstance(v, str):
+        return ["c", ord(str(v))]
+    if isinstance(v, np.ndarray):
+        if v.ndim == 0:
+            return canon(v.item())
+        return ["l"] + [canon(x) for x in v]
+    if isinstance(v, (list, tuple)):
+        return ["l"] + [canon(x) for x in v]
+    return _canon0(v)
 def fix(c):
     if isinstance(c, list):
         if len(c) == 2 and c[0] == "r" and isinstance(c[1], int):
@@ -502,6 +522,10 @@ WITNESSES = {
     "reshape-symbol": ("eval_dyad_reshape", I(5), Y("x")),
     "reshape-nested": ("eval_dyad_reshape", lit([2]), lit([[1, 2, 3]])),
     "find-nested": ("eval_dyad_find", lit([[1, 2], [1, 1]]), I(1)),
+    "find-symbol": ("eval_dyad_find", lit([Y("a"), Y("b")]), Y("a")),
+    "join-ragged": ("eval_dyad_join", lit([[1, 2], [3, 4]]), lit([[[1, 2, 3], [4, 5, 6]], [[7, 8, 9], [10, 11, 12]]])),
+    "char-of-empty": ("eval_monad_char", lit([]), None),
+    "expand-empty": ("eval_monad_expand_where", lit([]), None),
 }
 
 
